@@ -103,6 +103,11 @@ chk('C10', 'exploration',
     'seq: about 100 alphabet items with constructed verdicts (every assert.* holding / failing, state assertions after testing.call_subroutine, runtime-error shapes, assertion sequences, assertions under control flow, @skip, @suite, multi-@scope, scope by suffix, writers of every tester-visible piece of state, readers that log what they see, describe groups) - every item alone, every ordered pair, every ordered triple of the interaction alphabet, the whole alphabet forwards and backwards, x 4 mains x coverage off/on, run in-process with the options of `falco test`. Oracles: constructed verdict and error kind of every case, counters (skips, fails>0 iff a failed case, asserts=passes+fails), and for every ungrouped test equality of verdict/error/logs with its solo run without coverage. flow: 16 container shapes x arms from 35 leaf statements with at most 1 (quick) / 2 (thorough) arms deviating x every input vector, each run with and without coverage - observations must be equal. cli: the real binary in text and -json mode x coverage: exit status, printed counts, JSON verdicts and summary.',
     'Trusts: the constructed verdicts in mc/checks/c10/items.go (VCL and assertion semantics as documented in docs/testing.md); normalisation of line numbers in error/log texts. 2 known-finding classes (if() condition evaluated twice under coverage).')
 
+chk('C18', 'model_checking',
+    'stateless exploration of thread interleavings of the real code under a controlled cooperative scheduler (preemption-bounded DFS over choice sequences), vector-clock happens-before race check, serial-order reference computed on the same code; auxiliary free-running -race pass',
+    'The instrumenter (go build -overlay, nothing in /repo) rewrites sync.Mutex/RWMutex/WaitGroup and `go` statements of interpreter/... and linter to the scheduler shim, puts scheduling points at the entry of every lifecycle / statement / shared-state function and inside every read-modify-write statement on a field or package variable. sim: every multiset of 2 (<=2 preemptions; thorough 3) and 3 (<=1; thorough 2; thorough also 4 requests, <=1) request kinds {two cacheable URLs, pass, error, restart, penalty box} with distinct markers is sent concurrently into ONE Interpreter, followed by 3 sequential probe requests; every schedule within the bound is executed and the vector (responses: flow, logs, headers, restarts, cached; probes: cache contents, rate counter, penalty box) must equal the vector of some one-at-a-time order on a fresh instance. plugin: 2-4 stub plugin processes on one statement (0/1/2 diagnostics, failing, garbage); on every schedule the reported diagnostics are exactly what the plugins returned. On every execution: no deadlock, no panic, no conflicting accesses at a read-modify-write site unordered by happens-before. Evidence reports schedules explored, choice points, scheduling points, threads, distinct outcomes per scenario.',
+    'Trusts: the scheduler shim (one managed goroutine runs at a time; replay of the same choice sequence is checked to be deterministic); sequential consistency; code between two scheduling points is atomic. Unsynchronised accesses that are not read-modify-write statements are decided by their effect on the responses and, as auxiliary evidence only, by Go\'s race detector on a free-running build of the same scenario bodies (sampling, 15 repetitions per scenario).')
+
 NOT_YET = {i: 'check not built yet in this session (design in DESIGN.md §4); will be claimed once its command exists' for i in ids if i not in CHECKS}
 
 m = {
@@ -118,6 +123,7 @@ m = {
  'engines': [
    {'name': 'tlc+conformance', 'path': 'tla', 'serves_properties': ['C06'], 'kind_free_text': 'TLA+ model checked by TLC; dumped state graph replayed against the implementation by mc/checks/c06'},
    {'name': 'faultfs', 'path': 'mc/checks/c16', 'serves_properties': ['C16'], 'kind_free_text': 'syscall-level fault / crash-point enumeration on the real binary under strace and prlimit'},
+   {'name': 'sched', 'path': 'mc/shim/vsched + mc/sched + mc/cmd/instr', 'serves_properties': ['C18'], 'kind_free_text': 'controlled cooperative scheduler injected by source rewriting (sync, go statements, read-modify-write splits, function-entry points) with a preemption-bounded stateless DFS and vector-clock race check'},
    {'name': 'choice+shard', 'path': 'mc/engine', 'serves_properties': list(CHECKS.keys()),
     'kind_free_text': 'stateless deviation-bounded explorer + sharded exhaustive case runner with crash attribution, class keys, known-finding classification, replay files'},
  ],
